@@ -85,7 +85,7 @@ func (mb *mailbox) count() int {
 
 func genScenario(t *rapid.T) scenario {
 	var s scenario
-	s.Kind = rapid.SampledFrom([]string{"handler", "actor"}).Draw(t, "kind")
+	s.Kind = rapid.SampledFrom([]string{"handler", "actor", "actorAsk"}).Draw(t, "kind")
 	s.Cap = rapid.SampledFrom([]int{-1, 0, 1, 4, 64}).Draw(t, "cap")
 	ns := rapid.IntRange(1, 16).Draw(t, "senders")
 	maxMsg := 200
@@ -154,6 +154,35 @@ func runScenario(s scenario) result {
 		}
 		send = func(tg tag) { actor.Send(tg) }
 		closeIt = actor.Close
+	case "actorAsk":
+		// an actor of interface{} messages; every other submission of a sender goes through
+		// Ask.AskChannel (which submits the request object to the same mailbox) instead of Send
+		var anyActor *fpgo.ActorDef[interface{}]
+		effect := func(self *fpgo.ActorDef[interface{}], m interface{}) {
+			if self != anyActor {
+				atomic.AddInt32(&mb.wrongSelf, 1)
+			}
+			switch v := m.(type) {
+			case tag:
+				mb.process(v, s.Work)
+			case *fpgo.AskDef[tag, int]:
+				mb.process(v.Message, s.Work)
+				v.Reply(1) // reply channel is buffered: never blocks the actor
+			}
+		}
+		if s.Cap < 0 {
+			anyActor = fpgo.ActorNewGenerics(effect)
+		} else {
+			anyActor = fpgo.ActorNewByOptionsGenerics(effect, make(chan interface{}, s.Cap), map[string]interface{}{})
+		}
+		send = func(tg tag) {
+			if tg.seq%2 == 1 {
+				fpgo.AskNewByOptionsGenerics[tag, int](tg, make(chan int, 1)).AskChannel(anyActor)
+			} else {
+				anyActor.Send(tg)
+			}
+		}
+		closeIt = anyActor.Close
 	}
 	total := 0
 	for _, c := range s.Counts {
@@ -507,6 +536,8 @@ func TestRegress(t *testing.T) {
 		{Kind: "handler", Cap: 64, Counts: []int{50, 50, 50, 50}, Work: 3, SendGap: 1, PostLate: 3},
 		{Kind: "actor", Cap: 4, Counts: []int{2, 2}, CloseEarly: true, PostLate: 1},
 		{Kind: "handler", Cap: 1, Counts: []int{1}, CloseEarly: true},
+		{Kind: "actorAsk", Cap: 0, Counts: []int{10}},
+		{Kind: "actorAsk", Cap: 4, Counts: []int{4}, CloseEarly: true},
 	}
 	for _, s := range cases {
 		vlib.S().Eval("regress")
